@@ -9,7 +9,7 @@ def LexesTo (text : Text) (t : Tok) : Prop :=
   ∀ rest p, delimStart rest = true → ∃ c cs, text ++ rest = c :: cs ∧ isWs c = false ∧
     (lexOne p c cs).res = .ok t ∧ (lexOne p c cs).rest = rest ∧ (lexOne p c cs).queued = none
 
-theorem readNumber_ok (acc w rest : Text) (pos : Nat) (n : NumLit)
+theorem readNumber_tok (acc w rest : Text) (pos : Nat) (n : NumLit)
     (hw : ∀ c ∈ w, isNumChar c = true) (hr : delimStart rest = true)
     (hp : tryParseNumber (acc ++ w) = some (.ok n)) :
     readNumber acc pos (w ++ rest) = { res := .ok (.num n), pos := pos + utf8Len w, rest := rest } := by
@@ -38,13 +38,13 @@ theorem lexesTo_int (i : Int) : LexesTo (writeInt i) (.num (.real (.int i))) := 
       have hc := hw c (by simp)
       refine ⟨c, cs ++ rest, by rw [h.1]; rfl, digit_not_ws hc, ?_⟩
       rw [lexOne_digit p c _ hc]
-      have := readNumber_ok [] (c :: cs) rest p _ (by rw [← h.1]; exact hnum) hr (by rw [← h.1]; exact htry)
+      have := readNumber_tok [] (c :: cs) rest p _ (by rw [← h.1]; exact hnum) hr (by rw [← h.1]; exact htry)
       rw [show c :: (cs ++ rest) = (c :: cs) ++ rest from rfl, this]
       exact ⟨rfl, rfl, rfl⟩
   · refine ⟨'-', w ++ rest, by rw [h.1]; rfl, by decide, ?_⟩
     have hw' : ∀ c ∈ w, isNumChar c = true := fun c hc => digit_isNumChar (hw c hc)
     have : lexOne p '-' (w ++ rest) = readNumber ['-'] (p + 1) (w ++ rest) := rfl
-    rw [this, readNumber_ok ['-'] w rest (p + 1) _ hw' hr
+    rw [this, readNumber_tok ['-'] w rest (p + 1) _ hw' hr
       (by show tryParseNumber ('-' :: w) = _; rw [← h.1]; exact htry)]
     exact ⟨rfl, rfl, rfl⟩
 
@@ -61,7 +61,7 @@ theorem lexesTo_rat (n : Int) (d : Nat) (hd : d ≠ 0) :
       rw [h.1] at hnum htry ⊢
       refine ⟨c, cs ++ '/' :: decDigits d ++ rest, by simp, digit_not_ws hc, ?_⟩
       rw [lexOne_digit p c _ hc]
-      have := readNumber_ok [] ((c :: cs) ++ '/' :: decDigits d) rest p _ hnum hr htry
+      have := readNumber_tok [] ((c :: cs) ++ '/' :: decDigits d) rest p _ hnum hr htry
       rw [show c :: (cs ++ '/' :: decDigits d ++ rest) = ((c :: cs) ++ '/' :: decDigits d) ++ rest by simp, this]
       exact ⟨rfl, rfl, rfl⟩
   · rw [h.1] at hnum htry ⊢
@@ -70,7 +70,7 @@ theorem lexesTo_rat (n : Int) (d : Nat) (hd : d ≠ 0) :
       intro c hc; exact hnum c (by simp at hc ⊢; right; exact hc)
     have : lexOne p '-' (w ++ '/' :: decDigits d ++ rest)
         = readNumber ['-'] (p + 1) ((w ++ '/' :: decDigits d) ++ rest) := by simp; rfl
-    rw [this, readNumber_ok ['-'] (w ++ '/' :: decDigits d) rest (p + 1) _ hw' hr (by simpa using htry)]
+    rw [this, readNumber_tok ['-'] (w ++ '/' :: decDigits d) rest (p + 1) _ hw' hr (by simpa using htry)]
     exact ⟨rfl, rfl, rfl⟩
 
 end SteelVerif.C12
@@ -127,7 +127,7 @@ theorem lexesTo_byte (b : Nat) (hb : b < 256) :
     have := hexByte_numChars_all ⟨b, hb⟩
     simpa [List.all_eq_true] using this
   have ht := isIntTok_eq (bytesTok_all ⟨b, hb⟩)
-  rw [h1, readNumber_ok ['#', 'x'] (hexByte b) rest _ _ hn hr ht]
+  rw [h1, readNumber_tok ['#', 'x'] (hexByte b) rest _ _ hn hr ht]
   exact ⟨rfl, rfl, rfl⟩
 
 /-! ## booleans -/
